@@ -4,6 +4,7 @@ import OW.Sim.Graph
 import OW.Sim.Writer
 /-
 `SIM id gmp jit T G M sel×4 {name nP nI nS hasIn batches nodes…}×M L {10 ints}×L`
+  (`nP = -1`: a model with table-valued parameters, every node's parameter column is length-prefixed)
   → `ok {name created ds(outputs) ds(inputs) ds(states) extra}×M | ref=… late=…`   (ds = 0 | 1 rank dims… values…)
 The result printed is `owsim` (the implementation-shaped semantics under the earliest-writer schedule) with the kernel
 models of `Kernels.find`; after ` | ` the driver reports whether the specification `refSem` and the latest-writer
@@ -27,9 +28,13 @@ def popName : Toks → Option (String × Toks)
   | [] => none
   | t :: ts => some (t, ts)
 
-def popNode (nP nS nI T : Nat) (hasIn : Bool) (ts : Toks) :
+/-- one node. `nP ≥ 0`: `nP` parameter values; `nP < 0` (a model with table-valued parameters): the node's PACKED
+parameter column, length-prefixed (`[nPts, inputAmount[nPts], proportion[nPts]]`, each node its own table length — the
+kernel models take exactly this column; the padding of the file's parameter table to the model-wide maximum of each
+dimension is the wrapper's layout, `OW/Sim/WrapperNdTables.lean`) -/
+def popNode (nP : Int) (nS nI T : Nat) (hasIn : Bool) (ts : Toks) :
     Option ((List Float × List Float × List (List Float)) × Toks) := do
-  let (p, ts) ← popMany popF nP ts
+  let (p, ts) ← if nP < 0 then popFs ts else popMany popF nP.toNat ts
   let (s, ts) ← popMany popF nS ts
   if hasIn then
     let (ins, ts) ← popMany (popMany popF T) nI ts
@@ -38,7 +43,7 @@ def popNode (nP nS nI T : Nat) (hasIn : Bool) (ts : Toks) :
 
 def popModel (T : Nat) (ts : Toks) : Option (ModelData Float × Toks) := do
   let (name, ts) ← popName ts
-  let (nP, ts) ← popN ts
+  let (nP, ts) ← popI ts
   let (nI, ts) ← popN ts
   let (nS, ts) ← popN ts
   let (hi, ts) ← popN ts
